@@ -18,8 +18,8 @@ from unittest import mock
 PAIRS = [
     # (rule parsed by A, rule parsed by B): leaves of kinds that are resolved through the registry of check kinds
     ('http://h/yes and role:a', 'not https://h/no and role:b'),
-    ('https://h/yes or role:c', 'http://h/yes'),
-    ('role:a or http://h/no', [['https://h/yes', 'role:b'], ['role:c']]),
+    ('https://h/sec or role:c', 'http://h/yes'),
+    ('role:a or http://h/no', [['https://h/sec', 'role:b'], ['role:c']]),
     ([['http://h/yes'], ['role:a', 'role:b']], 'not http://h/yes and role:a'),
     ('rule:x and not https://h/no', 'role:a and (http://h/yes or project_id:%(project_id)s)'),
     ('project_id:%(project_id)s', 'https://h/no or role:b'),
@@ -35,7 +35,9 @@ class _Reply:
 
 
 def fake_post(url, **kw):
-    return _Reply('True' if url.split('?')[0].endswith('/yes') else 'False')
+    # the answer depends on path AND scheme (see pv/props/c15.py)
+    scheme, path = url.split('://', 1)[0].lower(), url.split('?')[0]
+    return _Reply('True' if (scheme == 'http' and path.endswith('/yes')) or (scheme == 'https' and path.endswith('/sec')) else 'False')
 
 
 ROLESETS = ([], ['a'], ['b'], ['a', 'b'], ['c'], ['a', 'c'], ['b', 'c'], ['a', 'b', 'c'])
